@@ -165,6 +165,8 @@ def table : List Entry :=
     e "pairing-gnark" "Pair" .fresh,
     e "pairing-gnark" "ValidatePairing" .fresh,
     e "schnorr" "Verify" .fresh "shared public key only marshalled",
+    e "anon" "Verify" .fresh "the members' keys and the signature are only read",
+    e "anon" "Verify (linkable)" .fresh,
     e "eddsa" "Verify" .fresh,
     e "bls" "Verify" .fresh,
     e "bdn" "Mask.Clone" .fresh "immutable shared tables, fresh mask bytes",
